@@ -157,6 +157,16 @@ var autoYieldFiles = []string{
 
 var unlockRe = regexp.MustCompile(`^(\s*)[A-Za-z0-9_.\[\]()]+\.(RUnlock|Unlock)\(\)\s*$`)
 
+// In pkg/cache/cache.go every operation is a composition of calls to the embedded map: a scheduling point is also
+// inserted after every such call that is a statement at the top level of a function (one tab deep: never inside a
+// callback, which may run under the map's lock), so that "look up, then decide later" is explorable however it is written.
+var (
+	afterCallFiles = map[string]bool{"pkg/cache/cache.go": true}
+	afterCallRe    = regexp.MustCompile(`^\t[^\t/].*\bc\.[A-Za-z.]+\(.*\)\s*$`)
+	afterCallSkip  = regexp.MustCompile(`^\t(return|defer|go|if|for|switch|func)\b`)
+	closeCallRe    = regexp.MustCompile(`^\t\}\)\s*$`)
+)
+
 func makeOverlay(tag string) string {
 	dir := filepath.Join(verifDir, ".build", "overlay-"+tag)
 	_ = os.RemoveAll(dir)
@@ -180,6 +190,9 @@ func makeOverlay(tag string) string {
 			if m := unlockRe.FindStringSubmatch(l); m != nil && !strings.Contains(l, "defer") {
 				n++
 				out = append(out, fmt.Sprintf("%sverifhook.Yield(\"auto.unlock\", %d)", m[1], (i+1)*10000+ln+1))
+			} else if afterCallFiles[rel] && ((afterCallRe.MatchString(l) && !afterCallSkip.MatchString(l)) || closeCallRe.MatchString(l)) {
+				n++
+				out = append(out, fmt.Sprintf("\tverifhook.Yield(\"auto.aftercall\", %d)", (i+1)*10000+ln+1))
 			}
 		}
 		if n == 0 {
